@@ -61,9 +61,36 @@ def _cname(c):
     return '%s.%s' % (c.__module__.split('packets.')[-1], c.__name__)
 
 
+_USER_CLASSES = []
+
+
+def ensure_user_subclasses():
+    """An application that extends the library: one subclass of every
+    packet class the library defines (registered or abstract), merely
+    *defined* - nothing hands them to the library.  Kept for the life of the
+    process; every later table is computed with them in existence."""
+    if _USER_CLASSES:
+        return
+    from minecraft.networking.packets import Packet
+    seen, todo = [], [Packet]
+    while todo:
+        c = todo.pop()
+        for sub in c.__subclasses__():
+            if sub not in seen and sub.__module__.startswith('minecraft.'):
+                seen.append(sub)
+                todo.append(sub)
+    for c in sorted(seen, key=_cname):
+        _USER_CLASSES.append(type('User' + c.__name__, (c,),
+                                  {'__module__': 'application.extension'}))
+
+
 def table_case(ctx, case):
-    """case {version, direction, state, claimed: bool, order?: [int]}"""
+    """case {version, direction, state, claimed: bool, order?: [int],
+    user_subclasses?: bool}"""
     v, d, s = case['version'], case['direction'], case['state']
+    if case.get('user_subclasses'):
+        ensure_user_subclasses()
+        ctx.label('tables_with_user_subclasses_defined')
     claimed = case.get('claimed')
     if claimed is None:
         # the property quantifies over the versions the tree under test
@@ -81,6 +108,12 @@ def table_case(ctx, case):
         return
     if len(classes) >= 2 and claimed:
         ctx.nt(v, d, s)
+    foreign = [_cname(x) for x in classes
+               if not x.__module__.startswith('minecraft.')]
+    if foreign and claimed:
+        ctx.fail('table', 'T1-class-nobody-registered-in-table', case,
+                 foreign[:4], 'only the classes the library registers')
+        return
     ids = {}
     bad = False
     for cls in classes:
@@ -156,6 +189,12 @@ def t_all(ctx, lo, hi):
     for v in sup[lo:hi]:
         for d, s in TABLES:
             table_case(ctx, {'version': v, 'direction': d, 'state': s})
+    # the same again in a process where an application has defined its own
+    # subclasses of the library's packet classes
+    for v in sup[lo:hi]:
+        for d, s in TABLES:
+            table_case(ctx, {'version': v, 'direction': d, 'state': s,
+                             'user_subclasses': True})
     ctx.sample({'version': sup[lo], 'direction': 'clientbound',
                 'state': 'play'})
     ctx.exhaustive_done('supported versions x 8 tables (T1-T3)')
